@@ -176,6 +176,8 @@ class Engine(StmtMixin, LoopMixin, CallMixin, Expr2Mixin, ExprMixin, EngineBase)
         self.add_background(('cnt', key), z3.And(Cf(0) == 0, z3.ForAll(
             [t], z3.Implies(t >= 0, Cf(t + 1) == Cf(t) + z3.If(c, 1, 0)), patterns=[Cf(t + 1)])))
         self._psums[key] = Cf
+        # log for contract text: the condition as a function of the ABSOLUTE index of the base array
+        st.notes['count_log'] = st.notes.get('count_log', ()) + (dict(Cf=Cf, cond=lambda a, c=c, t=t: z3.substitute(c, (t, a)), l=l),)
         return Cf
 
     # ------------------------------------------------------------------ class invariants
